@@ -331,7 +331,7 @@ def forall(*args):
 
 
 TInt, TNat, TStr, TReal, TBool = "int", "nat", "str", "real", "bool"
-_STRS = [""] + ["".join(t) for n in range(1, 5) for t in itertools.product("ABC", repeat=n)]
+_STRS = [""] + ["".join(t) for n in range(1, 4) for t in itertools.product("ABC", repeat=n)]
 
 
 def _domain(t):
@@ -635,3 +635,47 @@ def cnt(s, t, b, comp):
     AAs = "ACDEFGHIKLMNPQRSTVWY"
     import math
     return sum(1 for p in range(int(t)) if math.floor(AAs.index(s[p]) / comp) == b)
+
+
+# ---- C08
+@lru_cache(maxsize=None)
+def wlev(a, b, ins, dele, sub):
+    """minimum total weight of insertions / deletions / substitutions turning a into b"""
+    ins, dele, sub = int(ins), int(dele), int(sub)
+    prev = [j * ins for j in range(len(b) + 1)]
+    for i, ca in enumerate(a, 1):
+        cur = [i * dele]
+        for j, cb in enumerate(b, 1):
+            cur.append(min(prev[j] + dele, cur[j - 1] + ins, prev[j - 1] + (0 if ca == cb else min(sub, ins + dele))))
+        prev = cur
+    return prev[-1]
+
+
+def apply2(f, a, b):
+    return f(a, b)
+
+
+def cell(m, r, c):
+    return m[int(r), int(c)]
+
+
+def shape2(m):
+    return tuple(m.shape)
+
+
+def wlev_scorer(i, d, s):
+    return lambda a, b: wlev(a, b, i, d, s)
+
+
+def scorer_matrix(f, A, B):
+    import numpy as np
+    return np.array([[f(a, b) for b in B] for a in A]).reshape(len(A), len(B))
+
+
+def condensed_scores(f, X):
+    X = list(X)
+    return [f(X[i], X[j]) for i in range(len(X)) for j in range(i + 1, len(X))]
+
+
+def unit_weighted():
+    return None
